@@ -239,6 +239,14 @@ def compare(case, obs, exp, hang=None):
     ep, op = exp["parse"], obs["parse"]
     if "panic" in op:
         return must, asis
+    if "alt" in op:
+        # Message::try_from(&[u8]) answered differently from Message::from_bytes: at least one of them is wrong
+        alt = op["alt"]
+        op = {k: v for k, v in op.items() if k != "alt"}
+        obs = dict(obs, parse=op)
+        pids = ["C02"] + (["C09"] if has_fp(case) or ep.get("err") == "FingerprintMismatch" else []) + (["C17"] if ep.get("err") == "Truncated" else []) + \
+               (["C01"] if "panic" in alt else [])
+        must.append((pids, "Message::try_from answers %s, Message::from_bytes %s, specification %s" % (json.dumps(alt), json.dumps(op), json.dumps(ep))))
     fp_related = (not ep["ok"] and ep.get("err") == "FingerprintMismatch")
     if ep["ok"] != op["ok"]:
         pids = ["C02"] + (["C09"] if fp_related or has_fp(case) else [])
@@ -766,7 +774,9 @@ def c09(rep, tier, seed, wd):
     pick = gm[::max(1, len(gm) // nmsg)][:nmsg]
     # messages with dozens of attributes in front of the FINGERPRINT (any size): sampled corruption only
     crowded = [g for g in gen_messages(400 if tier == "quick" else 4000, seed + 4, wd, maxattrs=3)
-               if g["gen"]["seal"] & 4 and len(g["gen"]["attrs"]) > 16][:(3 if tier == "quick" else 10)]
+               if g["gen"]["seal"] & 4 and len(g["gen"]["attrs"]) > 16]
+    crowded.sort(key=lambda g: len(g["bytes"]))
+    crowded = crowded[:(2 if tier == "quick" else 10)]
     gm += [g for g in crowded if g not in gm]
     base = [{"bytes": g["bytes"], "src": "fingerprinted message %d (%s, seal=%d)" % (g["id"], "external" if g["gen"]["by_ext"] else "builder", g["gen"]["seal"])} for g in gm]
     muts = []
@@ -783,12 +793,12 @@ def c09(rep, tier, seed, wd):
                 m = list(b)
                 m[pos] = v
                 muts.append({"bytes": m, "mode": "verdict", "src": "message %d, byte %d := %d" % (g["id"], pos, v)})
-        if pick.index(g) % (5 if tier == "quick" else 2) == 0:
+        if pick.index(g) % (7 if tier == "quick" else 2) == 0:
             muts += systematic_fp_mutants(g, rng)
     for g in crowded:
         b = g["bytes"]
         na = len(g["gen"]["attrs"])
-        for _ in range(400 if tier == "quick" else 1500):
+        for _ in range(150 if tier == "quick" else 1500):
             i = rng.randrange(len(b) * 8)
             m = list(b)
             m[i // 8] ^= 1 << (7 - i % 8)
